@@ -92,7 +92,7 @@ def execute(case, prefix):
     fakesock.set_net(net)
     world = {'sched': sched, 'attempts': 0, 'nconn': 0, 'closes': script['closes'], 'refuse': script['refuse'], 't0': 0.0}
     net.listen('dev', 5000, lambda: Device(world))
-    out = {'callbacks': 0}
+    out = {'callbacks': 0, 'late': 0}
 
     def body():
         world['t0'] = sched.now
@@ -104,9 +104,18 @@ def execute(case, prefix):
         out['node'] = node
         io = node.secnode.modules['io']
 
+        def late():
+            out['late'] += 1
+            return True
+
         def cb():
             out['callbacks'] += 1
             LOG.append(('callback', sched.now))
+            if out['callbacks'] == 1:
+                # a callback registered while the callbacks of a reconnect are running (from inside a callback, as a
+                # module re-initialising itself after the reconnect does) is a registered callback from then on
+                io.registerReconnectCallback('late', late)
+                out['late_registered_at'] = len([e for e in LOG if e[0] == 'connected'])
             return True
         io.registerReconnectCallback('verif', cb)
         schedx.vsleep(150.0)
@@ -144,6 +153,13 @@ def judge(case, x, out, world):
     nrec = len([c for c in conns if c[1] >= 2])
     if out['callbacks'] != nrec:
         viol.append(('resume:reconnect-callback-count', f'{nrec} successful reconnects, callback ran {out["callbacks"]} times'))
+    if out.get('late_registered_at'):
+        # registered during reconnect number k (connection k+1): it may or may not run for that one, and runs once for every later one
+        later = len([c for c in conns if c[1] > out['late_registered_at']])
+        if not later <= out['late'] <= later + 1:
+            viol.append(('resume:callback-registered-during-a-reconnect-lost' if out['late'] < later else 'resume:callback-registered-during-a-reconnect-runs-too-often',
+                         f'registered while connection {out["late_registered_at"]} was being announced; {later} later reconnects, it ran {out["late"]} times; '
+                         f'registered at the end: {out.get("registered")}'))
     return viol
 
 
